@@ -68,6 +68,7 @@ type Exec struct {
 	Obligations int
 	Discharged  int
 	parseFloatN int
+	pfCalls     []pfCall
 	QuerySites  map[string]int
 	Lazy        bool
 	LazyForks   int
@@ -252,6 +253,27 @@ func (x *Exec) run(s0 *State, stop stopPoint) (arrived []*State) {
 				all = append(all, x.run(c, fstop)...)
 			}
 			merged := x.mergeAll(all)
+			if len(merged) > 1 && !x.Concrete {
+				// shape split: settle the feasibility of lazily explored arms now, before
+				// they multiply
+				kept := merged[:0]
+				for _, m := range merged {
+					if m.Model == nil {
+						res, mod := x.Solver.Check(m.PC, true)
+						if res == smt.Unsat {
+							x.LazyDropped++
+							continue
+						}
+						if res == smt.Sat {
+							m.Model = mod
+						} else {
+							x.Undecided++
+						}
+					}
+					kept = append(kept, m)
+				}
+				merged = kept
+			}
 			for _, m := range merged {
 				m.Depth--
 			}
@@ -535,6 +557,29 @@ func (x *Exec) forkOn(s *State, outs []Outcome, assign func(c *State, o Outcome)
 func (x *Exec) forkOnL(s *State, outs []Outcome, assign func(c *State, o Outcome) bool, lazy bool) (stepResult, []*State, stopPoint) {
 	var feas []Outcome
 	var models [][]uint64
+	if len(outs) > 1 && !x.Concrete {
+		// outcomes are mutually exclusive: one that is already a conjunct of the path
+		// condition excludes all others
+		for _, o := range outs {
+			if o.Cond.IsConst() {
+				continue
+			}
+			for _, p := range s.PC {
+				if p == o.Cond {
+					outs = []Outcome{o}
+					break
+				}
+			}
+			if len(outs) == 1 {
+				break
+			}
+		}
+		if len(outs) == 1 {
+			feas = append(feas, outs[0])
+			models = append(models, s.Model)
+			outs = nil
+		}
+	}
 	for _, o := range outs {
 		if lazy && !x.Concrete {
 			if o.Cond == smt.False {
@@ -789,6 +834,19 @@ func (x *Exec) step(s *State) (stepResult, []*State, stopPoint) {
 
 	case *ssa.Store:
 		addr := x.get(f, ins.Addr)
+		if sp, isSym := addr.(SymPtr); isSym {
+			arr := s.load(Ptr{sp.Obj, sp.Path}).(*ArrayVal)
+			na := &ArrayVal{E: append([]Value(nil), arr.E...)}
+			val := x.get(f, ins.Val).(*smt.Term)
+			for i := 0; i < sp.N; i++ {
+				hit := x.Ctx.Eq(sp.Idx, smt.Const(sp.Idx.W, uint64(i)))
+				na.E[sp.Off+i] = x.Ctx.Ite(hit, val, arr.E[sp.Off+i].(*smt.Term))
+			}
+			s.store(Ptr{sp.Obj, sp.Path}, na)
+			f.IP++
+			f.AtStart = false
+			return stepCont, nil, stopPoint{}
+		}
 		p, ok := addr.(Ptr)
 		if !ok {
 			unsupported("store to %T", addr)
@@ -853,6 +911,14 @@ func (x *Exec) eval(s *State, f *Frame, v ssa.Value) []Outcome {
 		xv := x.get(f, ins.X)
 		switch ins.Op {
 		case token.MUL:
+			if sp, isSym := xv.(SymPtr); isSym {
+				arr := s.load(Ptr{sp.Obj, sp.Path}).(*ArrayVal)
+				ts := make([]*smt.Term, sp.N)
+				for i := range ts {
+					ts[i] = arr.E[sp.Off+i].(*smt.Term)
+				}
+				return one(x.tableSelect(ts, sp.Idx))
+			}
 			p, ok := xv.(Ptr)
 			if !ok {
 				unsupported("load from %T", xv)
@@ -940,10 +1006,10 @@ func (x *Exec) eval(s *State, f *Frame, v ssa.Value) []Outcome {
 		return one(Ptr{Obj: p.Obj, Path: pathAppend(p.Path, ins.Field)})
 
 	case *ssa.Index:
-		return x.index(s, x.get(f, ins.X), x.get(f, ins.Index).(*smt.Term), ins.X.Type())
+		return x.index(s, x.get(f, ins.X), x.idx64(f, ins.Index), ins.X.Type())
 
 	case *ssa.IndexAddr:
-		return x.indexAddr(s, x.get(f, ins.X), x.get(f, ins.Index).(*smt.Term))
+		return x.indexAddr(s, x.get(f, ins.X), x.idx64(f, ins.Index))
 
 	case *ssa.Lookup:
 		return x.lookup(s, x.get(f, ins.X), x.get(f, ins.Index), ins)
@@ -995,6 +1061,16 @@ func (x *Exec) eval(s *State, f *Frame, v ssa.Value) []Outcome {
 	}
 	unsupported("instruction %T (%v)", v, v)
 	return nil
+}
+
+// idx64 widens an index operand to 64 bits according to its Go type.
+func (x *Exec) idx64(f *Frame, v ssa.Value) *smt.Term {
+	t := x.term(f, v)
+	if t.W == 64 {
+		return t
+	}
+	_, signed, _ := scalarInfo(v.Type())
+	return x.Ctx.Resize(t, 64, signed)
 }
 
 // ---------- binary operators ----------
@@ -1409,6 +1485,15 @@ func (x *Exec) indexAddr(s *State, xv Value, idx *smt.Term) []Outcome {
 		return one(Ptr{Obj: base.Obj, Path: pathAppend(base.Path, off+i)})
 	}
 	inb := x.boundsOK(idx, n)
+	if arr, ok := s.load(base).(*ArrayVal); ok && n > 0 {
+		if _, scalar := arr.E[off].(*smt.Term); scalar {
+			sp := SymPtr{Obj: base.Obj, Path: base.Path, Off: off, N: n, Idx: idx}
+			if inb == smt.True {
+				return one(sp)
+			}
+			return []Outcome{{Cond: inb, Val: sp}, {Cond: x.Ctx.Not(inb), Panic: fmt.Sprintf("index out of range (symbolic index, length %d)", n)}}
+		}
+	}
 	var outs []Outcome
 	for _, v := range x.concretizeUnder(s, idx, inb, 64) {
 		if int(v) < 0 || int(v) >= n {
